@@ -302,6 +302,7 @@ func runC19(c *Ctx, tier string) {
 	_ = types.Typ
 	runClientEncodesDotSegments(c, "C19-K8")
 	runCreateBranchParentFromRequest(c, "C19-K9")
+	runClientChannelFollowsSet(c, "C19-Q1")
 }
 
 var c19Exempt = map[string]string{
